@@ -426,7 +426,7 @@ def textFromEventDict(eventDict: EventDict) -> Optional[str]:
             try:
                 traceback = cast(failure.Failure, eventDict["failure"]).getTraceback()
             except Exception as e:
-                traceback = "(unable to obtain traceback): " + str(e)
+                traceback = "(unable to obtain traceback): " + reflect.safe_str(e)
             text = why + "\n" + traceback
         elif "format" in eventDict:
             text = _safeFormat(eventDict["format"], eventDict)
